@@ -18,6 +18,7 @@ fn word() -> Type {
     Type::ident("u8").const_pointer()
 }
 
+#[derive(Clone)]
 pub struct TB {
     pub name: String,
     pub public: bool,
@@ -269,20 +270,28 @@ pub fn c06_shapes(first_id: usize) -> Vec<Case> {
         for depth in 1..=4usize {
             for nbases in 1..=3usize {
                 for base_mask in 0..(1u32 << nbases) {
-                    for (derived_block, lead) in [(false, 0usize), (true, 0), (false, 1), (true, 2)] {
+                    for (derived_block, lead, empty_root) in [(false, 0usize, false), (true, 0, false), (false, 1, false), (true, 2, false), (false, 0, true), (true, 1, true)] {
+                        if empty_root && (base_mask & 1 == 0 || depth > 2) {
+                            continue;
+                        }
                         let id = format!("k{}_", first_id + out.len());
                         let mut m = Module::new();
                         // leaf bases
                         for bi in 0..nbases {
                             let mut b = TB::new(&format!("B{bi}"));
                             if base_mask & (1 << bi) != 0 {
-                                b.vft = Some(vec![vf(&format!("b{bi}_v0"), false), vf(&format!("b{bi}_v1"), true)]);
+                                b.vft = Some(if empty_root && bi == 0 {
+                                    // `vftable {}`: a table without slots is still a table
+                                    vec![]
+                                } else {
+                                    vec![vf(&format!("b{bi}_v0"), false), vf(&format!("b{bi}_v1"), true)]
+                                });
                             }
                             b.add_to(&mut m);
                         }
                         // chain D1..Ddepth: D1 has the leaf bases, Dk has Dk-1 first
                         let first_has = base_mask & 1 != 0;
-                        let mut table: Vec<Function> = if first_has { vec![vf("b0_v0", false), vf("b0_v1", true)] } else { vec![] };
+                        let mut table: Vec<Function> = if first_has && !empty_root { vec![vf("b0_v0", false), vf("b0_v1", true)] } else { vec![] };
                         let mut chain_has = first_has;
                         for k in 1..=depth {
                             let mut d = TB::new(&format!("D{k}"));
@@ -313,88 +322,137 @@ pub fn c06_shapes(first_id: usize) -> Vec<Case> {
 
 /// Compatible base/derived pair and every single-slot mutation of the derived table.
 pub fn c06_mutants(ptrw: usize) -> Vec<(&'static str, Vec<(ItemPath, Module)>, usize)> {
-    let base_fns = |cc: bool| -> Vec<Function> {
-        let mut v = vec![
-            Function::new((Visibility::Public, "a"), [Argument::ConstSelf, Argument::named("x", Type::ident("u32"))]).with_return_type(Type::ident("i32")),
-            Function::new((Visibility::Public, "b"), [Argument::MutSelf, Argument::named("p", Type::ident("u8").const_pointer())]),
-            Function::new((Visibility::Public, "c"), [Argument::ConstSelf]).with_return_type(Type::ident("bool")),
-        ];
-        if cc {
+    // family 0: three ordinary slots; family 1: a placeholder slot (left by an explicit index),
+    // an underscore-named slot and an ordinary one
+    let base_fns = |family: usize| -> Vec<Function> {
+        if family == 0 {
+            let mut v = vec![
+                Function::new((Visibility::Public, "a"), [Argument::ConstSelf, Argument::named("x", Type::ident("u32"))]).with_return_type(Type::ident("i32")),
+                Function::new((Visibility::Public, "b"), [Argument::MutSelf, Argument::named("p", Type::ident("u8").const_pointer())]),
+                Function::new((Visibility::Public, "c"), [Argument::ConstSelf]).with_return_type(Type::ident("bool")),
+            ];
             v[1].attributes = Attributes(vec![Attribute::calling_convention("cdecl")]);
+            v
+        } else {
+            let mut v = vec![
+                Function::new((Visibility::Public, "a"), [Argument::ConstSelf, Argument::named("x", Type::ident("u32"))]).with_return_type(Type::ident("i32")),
+                Function::new((Visibility::Public, "c"), [Argument::MutSelf, Argument::named("p", Type::ident("u8").const_pointer())]).with_return_type(Type::ident("bool")),
+                Function::new((Visibility::Private, "_hidden"), [Argument::ConstSelf, Argument::named("q", Type::ident("u16"))]).with_return_type(Type::ident("u8")),
+                Function::new((Visibility::Public, "_under_pub"), [Argument::MutSelf]),
+                Function::new((Visibility::Public, "e"), [Argument::ConstSelf]),
+            ];
+            v[1].attributes = Attributes(vec![Attribute::index(2)]);
+            v
         }
-        v
     };
-    let mk = |derived: Vec<Function>, depth: usize| -> Vec<(ItemPath, Module)> {
+    let mk = |family: usize, derived: Option<Vec<Function>>, depth: usize, mid_empty_block: bool| -> Vec<(ItemPath, Module)> {
         let mut m = Module::new();
         let mut b = TB::new("B");
-        b.vft = Some(base_fns(true));
+        b.vft = Some(base_fns(family));
         b.add_to(&mut m);
         let mut prev = "B".to_string();
         for k in 1..depth {
             let mut mid = TB::new(&format!("M{k}"));
             mid.bases = vec![("base".into(), prev.clone())];
+            if mid_empty_block {
+                mid.vft = Some(vec![]);
+            }
             mid.add_to(&mut m);
             prev = format!("M{k}");
         }
         let mut d = TB::new("D");
         d.bases = vec![("base".into(), prev)];
-        d.vft = Some(derived);
+        d.vft = derived;
         d.lead_fields = depth % 2;
         d.add_to(&mut m);
         vec![(ItemPath::from("kmut_m"), m)]
     };
     let mut out: Vec<(&'static str, Vec<(ItemPath, Module)>, usize)> = vec![];
-    for depth in 1..=3usize {
-        let good = {
-            let mut v = base_fns(true);
-            v.push(Function::new((Visibility::Public, "d"), [Argument::ConstSelf]));
-            v
-        };
-        out.push(("compatible", mk(good.clone(), depth), ptrw));
-        for slot in 0..3usize {
-            let mut v = good.clone();
-            v[slot].name = Ident(format!("renamed{slot}"));
-            out.push(("mutant/rename", mk(v, depth), ptrw));
-            let mut v = good.clone();
-            v[slot].arguments[0] = if v[slot].arguments[0] == Argument::ConstSelf { Argument::MutSelf } else { Argument::ConstSelf };
-            out.push(("mutant/receiver", mk(v, depth), ptrw));
-            let mut v = good.clone();
-            match &v[slot].return_type {
-                Some(_) => v[slot].return_type = None,
-                None => v[slot].return_type = Some(Type::ident("u32")),
-            }
-            out.push(("mutant/return-added-or-removed", mk(v, depth), ptrw));
-            let mut v = good.clone();
-            if v[slot].return_type.is_some() {
-                v[slot].return_type = Some(Type::ident("u64"));
-                out.push(("mutant/return-changed", mk(v, depth), ptrw));
-            }
-            let mut v = good.clone();
-            if v[slot].arguments.len() > 1 {
-                v[slot].arguments[1] = Argument::named(if slot == 0 { "x" } else { "p" }, Type::ident("u64"));
-                out.push(("mutant/parameter-type", mk(v, depth), ptrw));
+    for family in 0..2usize {
+        for depth in 1..=3usize {
+            let good = {
+                let mut v = base_fns(family);
+                v.push(Function::new((Visibility::Public, "d"), [Argument::ConstSelf]));
+                v
+            };
+            let nbase = good.len() - 1;
+            out.push(("compatible", mk(family, Some(good.clone()), depth, false), ptrw));
+            out.push(("compatible", mk(family, Some(base_fns(family)), depth, false), ptrw));
+            out.push(("compatible", mk(family, None, depth, false), ptrw));
+            for slot in 0..nbase {
                 let mut v = good.clone();
-                v[slot].arguments.pop();
-                out.push(("mutant/parameter-removed", mk(v, depth), ptrw));
+                let under = v[slot].name.0.starts_with('_');
+                v[slot].name = Ident(format!("{}renamed{slot}", if under { "_" } else { "" }));
+                out.push(("mutant/rename", mk(family, Some(v), depth, false), ptrw));
+                if under {
+                    let mut v = good.clone();
+                    v[slot].name = Ident(v[slot].name.0.trim_start_matches('_').to_string());
+                    out.push(("mutant/rename-drops-underscore", mk(family, Some(v), depth, false), ptrw));
+                }
+                let mut v = good.clone();
+                v[slot].arguments[0] = if v[slot].arguments[0] == Argument::ConstSelf { Argument::MutSelf } else { Argument::ConstSelf };
+                out.push(("mutant/receiver", mk(family, Some(v), depth, false), ptrw));
+                let mut v = good.clone();
+                match &v[slot].return_type {
+                    Some(_) => v[slot].return_type = None,
+                    None => v[slot].return_type = Some(Type::ident("u32")),
+                }
+                out.push(("mutant/return-added-or-removed", mk(family, Some(v), depth, false), ptrw));
+                let mut v = good.clone();
+                if v[slot].return_type.is_some() {
+                    v[slot].return_type = Some(Type::ident("u64"));
+                    out.push(("mutant/return-changed", mk(family, Some(v), depth, false), ptrw));
+                }
+                let mut v = good.clone();
+                if v[slot].arguments.len() > 1 {
+                    let pname = match &v[slot].arguments[1] {
+                        Argument::Named(n, _) => n.0.clone(),
+                        _ => "x".to_string(),
+                    };
+                    v[slot].arguments[1] = Argument::named(pname.as_str(), Type::ident("u64"));
+                    out.push(("mutant/parameter-type", mk(family, Some(v), depth, false), ptrw));
+                    let mut v = good.clone();
+                    v[slot].arguments.pop();
+                    out.push(("mutant/parameter-removed", mk(family, Some(v), depth, false), ptrw));
+                }
+                let mut v = good.clone();
+                v[slot].arguments.push(Argument::named("extra", Type::ident("u8")));
+                out.push(("mutant/parameter-added", mk(family, Some(v), depth, false), ptrw));
+                let mut v = good.clone();
+                let cur = crate::refmodel::attr_str(&v[slot].attributes, "calling_convention");
+                v[slot].attributes.0.retain(|a| a.function().map(|(i, _)| i.as_str() != "calling_convention").unwrap_or(true));
+                v[slot].attributes.0.push(Attribute::calling_convention(if cur.as_deref() == Some("cdecl") { "stdcall" } else { "cdecl" }));
+                out.push(("mutant/calling-convention", mk(family, Some(v), depth, false), ptrw));
             }
+            for keep in 0..nbase {
+                let v: Vec<Function> = good.iter().take(keep).cloned().collect();
+                out.push((if keep == 0 { "mutant/truncated-to-empty-block" } else { "mutant/truncated" }, mk(family, Some(v), depth, false), ptrw));
+            }
+            if depth > 1 {
+                // an intermediate type with an empty block over a base with slots
+                out.push(("mutant/empty-block-in-the-middle", mk(family, Some(good.clone()), depth, true), ptrw));
+            }
+            // swapped order of two base slots
             let mut v = good.clone();
-            v[slot].arguments.push(Argument::named("extra", Type::ident("u8")));
-            out.push(("mutant/parameter-added", mk(v, depth), ptrw));
-            let mut v = good.clone();
-            let cur = crate::refmodel::attr_str(&v[slot].attributes, "calling_convention");
-            v[slot].attributes = Attributes(vec![Attribute::calling_convention(if cur.as_deref() == Some("cdecl") { "stdcall" } else { "cdecl" })]);
-            out.push(("mutant/calling-convention", mk(v, depth), ptrw));
-        }
-        for keep in 0..3usize {
-            let v: Vec<Function> = good.iter().take(keep).cloned().collect();
-            if !v.is_empty() {
-                out.push(("mutant/truncated", mk(v, depth), ptrw));
+            let (i, j) = if family == 0 { (0, 2) } else { (2, 4) };
+            v.swap(i, j);
+            out.push(("mutant/swapped", mk(family, Some(v), depth, false), ptrw));
+            if family == 1 {
+                // the base's placeholder slot filled with a real function
+                let mut v = good.clone();
+                v[1].attributes = Attributes(vec![]);
+                v.insert(1, Function::new((Visibility::Public, "filled"), [Argument::ConstSelf]));
+                out.push(("mutant/placeholder-filled", mk(family, Some(v), depth, false), ptrw));
+                // the placeholder moved: c at slot 1, nothing at 2
+                let mut v = good.clone();
+                v[1].attributes = Attributes(vec![]);
+                out.push(("mutant/placeholder-dropped", mk(family, Some(v), depth, false), ptrw));
+                // a real base slot turned into a placeholder by skipping over it
+                let mut v = good.clone();
+                v.remove(0);
+                out.push(("mutant/slot-replaced-by-placeholder", mk(family, Some(v), depth, false), ptrw));
             }
         }
-        // swapped order of two base slots
-        let mut v = good.clone();
-        v.swap(0, 2);
-        out.push(("mutant/swapped", mk(v, depth), ptrw));
     }
     out
 }
@@ -409,6 +467,41 @@ pub fn c07_cases(seed: u64, first_id: usize, n: usize) -> Vec<Case> {
         let id = format!("k{}_", first_id + i);
         let mut m = Module::new();
         let mut addr = Addr(0x3000_0000 + i * 0x4000);
+        if i % 6 == 5 {
+            // two DIFFERENT base types that share their last path segment, reached through
+            // intermediates of two modules: neither occurs twice
+            let mut mods = vec![];
+            let same_leaf_fn = rng.coin();
+            for side in ["a", "b"] {
+                let mut sm = Module::new();
+                let mut node = TB::new("Node");
+                node.nfields = rng.range(0, 2);
+                if rng.coin() {
+                    node.vft = Some(vec![func(&mut rng, &format!("{side}_virt"), Some(None), 8, 2)]);
+                }
+                node.impl_fns.push(with_address(func(&mut rng, if same_leaf_fn { "run" } else if side == "a" { "run_a" } else { "run_b" }, Some(None), 8, 2), addr.next()));
+                node.add_to(&mut sm);
+                let mut wrap = TB::new(&format!("Wrap{}", side.to_uppercase()));
+                wrap.nfields = rng.range(0, 2);
+                wrap.bases.push(("node".into(), "Node".into()));
+                wrap.add_to(&mut sm);
+                mods.push((ItemPath::from(format!("{id}{side}").as_str()), sm));
+            }
+            let mut d = TB::new("D");
+            d.bases.push(("wa".into(), "WrapA".into()));
+            d.bases.push(("wb".into(), "WrapB".into()));
+            if rng.coin() {
+                // and a genuinely repeated one
+                d.bases.push(("wa2".into(), "WrapA".into()));
+            }
+            d.nfields = rng.range(0, 2);
+            d.add_to(&mut m);
+            m.uses.push(ItemPath::from(format!("{id}a::WrapA").as_str()));
+            m.uses.push(ItemPath::from(format!("{id}b::WrapB").as_str()));
+            mods.push((ItemPath::from(format!("{id}h").as_str()), m));
+            out.push((id.clone(), mods, 8));
+            continue;
+        }
         // level 0: 2-3 roots, some with vftables, with deliberately shared method names
         let nroots = rng.range(2, 3);
         let mut level: Vec<String> = vec![];
@@ -417,10 +510,10 @@ pub fn c07_cases(seed: u64, first_id: usize, n: usize) -> Vec<Case> {
             if rng.chance(2, 3) {
                 t.vft = Some(vec![
                     func(&mut rng, &format!("r{r}_virt"), Some(None), 7, 3),
-                    func(&mut rng, "shared_virt", Some(Some(false)), 8, 2),
+                    func(&mut rng, "shared_virt", Some(Some(false)), 6, 2),
                 ]);
             }
-            t.impl_fns.push(with_address(func(&mut rng, "common", Some(None), 8, 3), addr.next()));
+            t.impl_fns.push(with_address(func(&mut rng, "common", Some(None), 6, 3), addr.next()));
             t.impl_fns.push(with_address(func(&mut rng, &format!("r{r}_own"), Some(Some(false)), 6, 3), addr.next()));
             if rng.chance(1, 3) {
                 t.impl_fns.push(with_address(func(&mut rng, &format!("r{r}_static"), None, 8, 2), addr.next()));
@@ -576,7 +669,42 @@ pub fn negatives(ctx: &mut Ctx, prop: &str) {
                 let mut m = Module::new();
                 let mut t = TB::new("T");
                 let mut f = func(&mut rng, "f", Some(Some(false)), 8, 3);
-                let kind = match i % 5 {
+                let kind = match i % 8 {
+                    5 => {
+                        // the same name twice (with different addresses), in one or in two impl blocks
+                        f.attributes.0.push(Attribute::address(0x2000_0000));
+                        let mut g = f.clone();
+                        g.attributes = Attributes(vec![Attribute::address(0x2000_0400)]);
+                        {
+                            // across two blocks (checked here), then within one (falls through)
+                            let mut m2 = m.clone();
+                            let mut t2 = t.clone();
+                            t2.impl_fns.push(f.clone());
+                            t2.add_to(&mut m2);
+                            m2.impls.push(FunctionBlock::new("T", [g.clone()]));
+                            must_reject(ctx, prop, "duplicate-function-across-blocks", vec![(ItemPath::from("kneg_m"), m2)], *rng.pick(&[4, 8]));
+                        }
+                        t.impl_fns.push(g);
+                        "duplicate-function-in-one-block"
+                    }
+                    6 => {
+                        // an impl block for something that is not a type of this module
+                        f.attributes.0.push(Attribute::address(0x2000_0000));
+                        let target = *rng.pick(&["Nowhere", "E", "Imported"]);
+                        m.definitions.push(ItemDefinition::new((Visibility::Public, "E"), EnumDefinition::new(Type::ident("u32"), [EnumStatement::field("A")], [])));
+                        m.impls.push(FunctionBlock::new(target, [f.clone()]));
+                        t.add_to(&mut m);
+                        let mut other = Module::new();
+                        TB::new("Imported").add_to(&mut other);
+                        m.uses.push(ItemPath::from("kneg_o::Imported"));
+                        must_reject(ctx, prop, "impl-block-for-non-local-type", vec![(ItemPath::from("kneg_o"), other), (ItemPath::from("kneg_m"), m)], *rng.pick(&[4, 8]));
+                        continue;
+                    }
+                    7 => {
+                        f.attributes.0.push(Attribute::address(0x2000_0000));
+                        f.arguments.push(Argument::named("z", Type::ident("Undefined").const_pointer().array(2)));
+                        "undefined-parameter-type"
+                    }
                     0 => "missing-address",
                     1 => {
                         f.attributes.0.push(Attribute::address(0x2000_0000));
